@@ -466,6 +466,61 @@ example :
     decoratorKey sig ['v', '1'] t {} ⟨[.str ['e', 'u'], .str ['/', 'u']], []⟩ = some "v1:m:K.g:self:eu:p:/u".toList := by
   decide
 
+/-! ### the context a call is made in -/
+
+/-- **The ambient key context reaches a key only through fields the call does not bind.**  Two key
+contexts without the deprecated `rewrite` flag that agree on every template field the call's own
+values leave open (context names such as `{site}`, and `{@}`) give the call the same key: a field
+named like a parameter is always rendered from the call's bound argument, whatever the context holds
+under that name. -/
+theorem key_depends_on_context_only_through_unbound_fields (sig : Sig) (t : Tmpl) (ctx ctx' : Ctx) (c : Call)
+    (vals : Dict) (hv : callValues sig c = some vals) (hr : ctx.rewrite = false) (hr' : ctx'.rewrite = false)
+    (hag : ∀ n ∈ t.fields, get? vals n = none → get? (withCtx ctx []) n = get? (withCtx ctx' []) n) :
+    cacheKey sig t ctx c = cacheKey sig t ctx' c := by
+  simp only [cacheKey, hv, Option.map_some]
+  congr 1
+  apply render_congr_fields
+  intro n hn
+  have h := hag n hn
+  simp only [withCtx, hr, hr', List.nil_append] at h ⊢
+  simp only [Bool.false_eq_true, if_false, List.append_assoc, get?_append] at h ⊢
+  cases hvn : get? vals n with
+  | some v => simp
+  | none => simpa using h hvn
+
+/-- **A call that binds all the fields of its template has one key in every (non-rewrite) context** —
+in particular a context that holds other values under the names of its parameters, like the values of
+an enclosing call with the same parameter names. -/
+theorem key_same_in_every_context_when_fields_bound (sig : Sig) (t : Tmpl) (ctx ctx' : Ctx) (c : Call)
+    (vals : Dict) (hv : callValues sig c = some vals) (hr : ctx.rewrite = false) (hr' : ctx'.rewrite = false)
+    (hb : ∀ n ∈ t.fields, (get? vals n).isSome) :
+    cacheKey sig t ctx c = cacheKey sig t ctx' c := by
+  refine key_depends_on_context_only_through_unbound_fields sig t ctx ctx' c vals hv hr hr' ?_
+  intro n hn hnone
+  have := hb n hn
+  simp [hnone] at this
+
+/-- **A call made inside the body of a decorated function has its top-level key.**  The body of a function
+under any cashews decorator — `invalidate` included — runs in the caller's key context (`bodyCtx`), so the
+key of a call made there is the key of the same call made next to the enclosing one: it does not depend on
+the enclosing call's arguments. (The correspondence checks `bodyCtx` against every decorator.) -/
+theorem nested_call_key_is_the_toplevel_key (sig : Sig) (t : Tmpl) (ambient : Ctx) (enclosing : Dict) (c : Call) :
+    cacheKey sig t (bodyCtx ambient enclosing) c = cacheKey sig t ambient c := rfl
+
+/-- why `bodyCtx` matters: *in* a rewrite context built from an enclosing call `add_friend(user_id='u1', ..)`
+the inner `get_profile('u2')` with template `profile:{user_id}` would be keyed `profile:u1`, like
+`get_profile('u1')`; in the caller's (empty) context the two differ.  A rewrite context is only ever what the
+user wrote (`key_context(rewrite=True)`, deprecated) or what surrounds `delete_match` inside `invalidate`. -/
+theorem rewrite_context_overrides_bound_field :
+    let sig : Sig := [{ name := "user_id".toList, kind := .pos }]
+    let t : Tmpl := [.lit "profile:".toList, .field "user_id".toList]
+    let enclosing : Ctx := { vals := [("user_id".toList, .str ['u', '1'])], rewrite := true }
+    cacheKey sig t enclosing ⟨[.str ['u', '2']], []⟩ = some "profile:u1".toList ∧
+    cacheKey sig t enclosing ⟨[.str ['u', '2']], []⟩ = cacheKey sig t enclosing ⟨[.str ['u', '1']], []⟩ ∧
+    cacheKey sig t (bodyCtx {} enclosing.vals) ⟨[.str ['u', '2']], []⟩ = some "profile:u2".toList ∧
+    cacheKey sig t { enclosing with rewrite := false } ⟨[.str ['u', '2']], []⟩ = some "profile:u2".toList := by
+  decide
+
 /-! ### what is excluded, with witnesses -/
 
 /-- **Known finding: the rendering of bytes is not injective.**  `b'\xff'` (not UTF-8, rendered as
